@@ -244,3 +244,67 @@ contract("bacpypes.core:deferred",
     ensures=["len(deferredFns) == len(old(deferredFns)) + 1", "deferredFns[-1][0] is fn",
              "all(deferredFns[i] is old(deferredFns)[i] for i in range(len(old(deferredFns))))"],      # appended at the end, order kept
     modifies=["deferredFns"])
+
+# -- TaskManager.process_task: firing a task whose callback may re-arm it ------------------------------------------------------------------
+# The flag isScheduled is what install_task / suspend_task consult to decide whether an old heap entry has to be pulled first, so after
+# a task has fired the flag must say exactly whether the task is queued (again) -- otherwise a later re-install duplicates it and a
+# suspend leaves a copy behind.
+
+from bacpypes.task import OneShotTask, OneShotDeleteTask, RecurringTask
+
+class _Rearming(object):
+    """the callback of an arbitrary task: records the firing and, when `rearm`, installs the task again at `next_time`"""
+    def process_task(self):
+        ghost_called('fired')
+        if self.rearm:
+            self.taskTime = self.next_time
+            self.mgr.install_task(self)
+
+class GhostOneShot(_Rearming, OneShotTask):
+    pass
+
+class GhostOneShotDelete(_Rearming, OneShotDeleteTask):
+    pass
+
+class GhostRecurring(RecurringTask):
+    def process_task(self):
+        ghost_called('fired')
+    def install_task(self, *args, **kwargs):
+        ghost_called('installed again')
+
+def FiredTask(cls):
+    def build(b, name):
+        t = object.__new__(cls)
+        t.__dict__.update(taskTime=Real().build(b, name + '.taskTime'), isScheduled=False, rearm=Bool().build(b, name + '.rearm'),
+                          next_time=Real().build(b, name + '.next_time'), mgr=b.built['self'])
+        b.built[name] = t
+        return t
+    return Fn(build)
+
+def queued(h, task):
+    return any(e[2] is task for e in h)
+
+def fired_ok(m, task, old_tasks, old_counter):
+    """the others stay queued as they were; the fired task is queued again exactly when its callback re-armed it, once, at the time it asked for"""
+    mine = [e for e in m.tasks if e[2] is task]
+    if not same_entries(without(m.tasks, task), old_tasks):
+        return False
+    if task.rearm:
+        return len(mine) == 1 and mine[0][0] == task.next_time and mine[0][1] == old_counter and task.isScheduled == True
+    return len(mine) == 0 and task.isScheduled == False
+
+for _cls in (GhostOneShot, GhostOneShotDelete):
+    for _k in range(3):
+        contract("bacpypes.task:TaskManager.process_task", name="bacpypes.task:TaskManager.process_task[%s, heap of %d]" % (_cls.__bases__[1].__name__, _k),
+            params={"self": Manager(_k), "task": FiredTask(_cls)},
+            requires=["wf(self)"],
+            ensures=["wf(self)", "called_ids() == ['fired']", "fired_ok(self, task, old(list(self.tasks)), old(count_value(self.counter)))",
+                     "task.isScheduled == queued(self.tasks, task)"],
+            modifies=["self.tasks", "self.counter.value", "task.isScheduled", "task.taskTime"],
+            note="the task has just been taken off the heap (get_next_task); its callback fires once and may install the task again")
+
+contract("bacpypes.task:TaskManager.process_task", name="bacpypes.task:TaskManager.process_task[RecurringTask]",
+    params={"self": Manager(1), "task": Obj("contracts.task:GhostRecurring", taskTime=Real(), isScheduled=Const(False), taskInterval=Const(1000), taskIntervalOffset=Const(None))},
+    requires=["wf(self)"],
+    ensures=["wf(self)", "called_ids() == ['fired', 'installed again']", "same_entries(self.tasks, old(list(self.tasks)))"],
+    modifies=[], note="a recurring task is installed again exactly once after each firing (its next slot is RecurringTask.install_task's contract)")
